@@ -10,6 +10,7 @@ def generate(G):
         ("drop_others", 6, "quick", "clone dropped, derived results dropped (real drops) before and after a pass"),
         ("matmul_addend", 8, "quick", "matmul with an additive term of exactly the product's shape (single owner), and the dot-product form with a [1] term: the term is unchanged"),
         ("activation_alias", 8, "quick", "activation::relu() applied to a clone of an array that other handles (a view, a clone) still share; untracked and tracked"),
+        ("optimizer_update_frozen", 6, "quick", "update over [frozen, live] with equal element counts: the frozen handle is untouched; a hand-supplied gradient of shape [1,2] for a [2] parameter leaves the dimensions alone"),
         ("accumulate_shared", 6, "quick", "y = a + a*k: first adjoint of a through the addition (shared buffer), second a fresh array; seed and stored gradients re-checked; second pass"),
     ]:
         G.ob("c08_" + name, "C08", name, "c08::%s(s)" % name, unwind=unwind, tier=tier, skeleton={"history": what},
